@@ -7,6 +7,7 @@ import (
 	"fmt"
 	"os"
 	"sort"
+	"strings"
 
 	"verifharness/internal/model"
 	"verifharness/internal/prng"
@@ -27,7 +28,7 @@ type ctx struct {
 
 // emit evaluates one protocol line on the real code and queues it for the model.
 func (c *ctx) emit(line, class string, nontriv bool, tags ...string) {
-	g, rd := c.s.eval(line)
+	g, rd := safeEval(c.s, line)
 	c.b.add(pending{line: line, readable: rd, goOut: g, class: class, nontriv: nontriv, tags: tags})
 }
 
@@ -39,9 +40,20 @@ func (c *ctx) emitPre(line, goOut, readable, class string, nontriv bool, tags ..
 
 // emitG is emit for callers that need the Go observable (e.g. to tag by outcome).
 func (c *ctx) emitG(line, class string, nontriv func(goOut string) bool, tags func(goOut string) []string) string {
-	g, rd := c.s.eval(line)
+	g, rd := safeEval(c.s, line)
 	c.b.add(pending{line: line, readable: rd, goOut: g, class: class, nontriv: nontriv(g), tags: tags(g)})
 	return g
+}
+
+// safeEval is the stream's eval with a panic of the code under test turned into the observable
+// "PANIC <message>" (C09: no entry point may panic), so that the run goes on and the case is reported.
+func safeEval(s *stream, line string) (g, rd string) {
+	defer func() {
+		if r := recover(); r != nil {
+			g, rd = "PANIC "+strings.ReplaceAll(fmt.Sprint(r), "\n", " "), line
+		}
+	}()
+	return s.eval(line)
 }
 
 // replay re-runs a single protocol line of a stream against the current tree and the model.
@@ -57,7 +69,7 @@ func replay(modelPath, name, line string) int {
 		return 2
 	}
 	defer m.Close()
-	g, rd := s.eval(line)
+	g, rd := safeEval(&s, line)
 	mo, err := m.One(line)
 	if err != nil {
 		fmt.Fprintln(os.Stderr, err)
@@ -110,6 +122,10 @@ func main() {
 		sort.Strings(names)
 		fmt.Println("streams:", names)
 		os.Exit(2)
+	}
+	if flag.Arg(0) == "child" {
+		childMain(flag.Arg(1), flag.Arg(2))
+		return
 	}
 	if flag.Arg(0) == "replay" {
 		os.Exit(replay(*modelPath, flag.Arg(1), flag.Arg(2)))
